@@ -131,8 +131,9 @@ def run_success(args):
     hold_new = 30 if change != 'hold' else 60
     norib = change == 'norib'
     rev = session.endswith('-rev')
+    twice = session.endswith('-twice')   # the reload signal a second time, right after the first (the same new file)
     session = session.split('-')[0]
-    with World(config(old, norib=norib, rev=rev)) as wd:
+    with World(config(old, norib=norib or change == 'rib-on', rev=rev)) as wd:
         env = Env(wd, hold=30, script=[], config_name='active')
         env.step = 0
         up = False
@@ -171,6 +172,9 @@ def run_success(args):
             wd.set_config(config(new, hold=hold_new, extra=extra, norib=norib, rev=rev))
         wd.signal('RELOAD')
         wd.settle()
+        if twice:
+            wd.signal('RELOAD')
+            wd.settle()
         wd.advance(0.6)
         if str(wd.cfg.error):
             return [('reload-refused-valid-config', f'a valid configuration was refused: {str(wd.cfg.error)[:200]}')], ('refused',), 0
@@ -200,6 +204,7 @@ def run_success(args):
             viols.append(('undecodable', bad))
     want = dict(table_of(new))
     want.update(api)
+    session = session + ('-twice' if twice else '') + (':rib-on' if change == 'rib-on' else '')
     for k in sorted(set(want) | set(table)):
         g, e = table.get(k), want.get(k)
         name = [n for n, kk in KEY.items() if kk == k]
@@ -234,6 +239,9 @@ FAULTS = {
     'garbage': lambda line: 'xyzzy plugh;',
     'unbalanced': lambda line: line.replace(';', ' {') if ';' in line else line + ' {',
     'non-valueerror': lambda line: '    route 10.0.5.0/24 next-hop 1.1.1.1 community [ 99999999:1 ];',
+    # faults of one kind of line only (None: the line is not of that kind)
+    'undefined-process': lambda line: line.replace('processes [ api ]', 'processes [ nosuch ]') if 'processes [ api ]' in line else None,
+    'stray-brace': lambda line: (line + '\n}') if line.strip() in ('}',) or line.strip().endswith(';') else None,
 }
 
 
@@ -298,15 +306,21 @@ def run_failure(args):
             if line_idx >= len(body_idx):
                 return [], ('skip',), 0
             i = body_idx[line_idx]
-            lines[i] = FAULTS[fault](lines[i])
+            mutated = FAULTS[fault](lines[i])
+            if mutated is None:
+                return [], ('skip',), 0
+            lines[i] = mutated
             wd.set_config('\n'.join(lines))
+            written = sum(1 for l in lines if l.startswith('neighbor '))
         wd.signal('RELOAD')
         wd.settle()
         wd.advance(0.6)
         accepted = not str(wd.cfg.error) and sorted(wd.cfg.neighbors) == before['neighbors'] and fault != 'missing-file'
         after = snapshot(wd)
         if not str(wd.cfg.error) and fault != 'missing-file':
-            # the mutated text happened to be a valid configuration: not a failing reload
+            # the mutated text happened to be a valid configuration: not a failing reload - unless part of the file was dropped on the way
+            if fault == 'stray-brace' and len(wd.cfg.neighbors) != written:
+                return [('accepted-truncated:stray-brace', f'a file with a closing brace too many after line {line_idx} was accepted as the configuration of {len(wd.cfg.neighbors)} neighbor(s); it writes {written} (the running peers of the others are removed)')], ('truncated',), 0
             return [], ('accepted', fault), 0
         for key in ('neighbors', 'processes', 'children'):
             if before[key] != after[key]:
@@ -509,6 +523,13 @@ def plan(tier):
             for fault in FAULTS:
                 for sess in ('up-noproc', 'down-noproc'):
                     fail.append((old, new, li, fault, sess))
+    # a second reload right after the first (session up / down, with and without a session-level change), and adj-rib-out switched on
+    for old, new in itertools.product(SELS[1::3] if tier == 'quick' else SELS, SELS[::3] if tier == 'quick' else SELS):
+        for sess in ('up-twice', 'down-twice'):
+            for ch in ('none', 'hold'):
+                succ.append((old, new, sess, 'none', ch))
+        succ.append((old, new, 'up', 'none', 'rib-on'))
+        succ.append((old, new, 'down', 'none', 'rib-on'))
     succ = list(dict.fromkeys(succ))
     return succ, fail
 
@@ -518,7 +539,7 @@ def readd_plan(tier):
     thirds = [(None, 'x', None), ('x', None, None)]
     pairs = [(SELS[15], SELS[1]), (SELS[1], SELS[10]), (SELS[5], SELS[15])] if tier == 'quick' else [(o, n) for o in SELS[1::3] for n in SELS[1::4]]
     for old, new in pairs:
-        for fault in FAULTS:
+        for fault in ('garbage', 'unbalanced', 'non-valueerror'):
             for third in thirds:
                 jobs.append((old, new, fault, third))
     return jobs
